@@ -1,4 +1,4 @@
-import GeffModel.TrackMate
+import GeffModel.TrackMateSpec
 import Mathlib.Data.List.Nodup
 import Mathlib.Tactic.ByContra
 /-! # Helper lemmas for C16 — closed forms of the mutating loops of the TrackMate converter
@@ -162,24 +162,6 @@ theorem convertOne_declared {md : List Feat} {k : String} {t : Txt} {v : Val} {f
 
 
 
-/-- the attribute dict `_add_all_nodes` stores for a spot (closed form) -/
-def spotAttrs (md : List Feat) (s : Spot) : Attrs :=
-  let a := match convertAttributes md (spotTexts s) with
-    | .ok a => a
-    | .exc _ => []
-  match s.roi with
-  | some r => aset a "ROI_coords" (match r.pts with
-    | some p => .roi p
-    | none => .none)
-  | none => a
-
-/-- what makes one `Spot` element well-formed for `_add_all_nodes` -/
-structure SpotOk (md : List Feat) (s : Spot) : Prop where
-  conv : ∃ a, convertAttributes md (spotTexts s) = .ok a
-  roi : ∀ r, s.roi = some r → r.pts.isSome = true → r.nPoints ≠ 0
-
-def spotId (s : Spot) : Nat := s.id.getD 0
-
 theorem hasNode_iff (g : Graph) (n : Nat) : g.hasNode n = true ↔ n ∈ g.nodes.map (·.1) := by
   unfold Graph.hasNode
   simp only [List.any_eq_true, beq_iff_eq, List.mem_map]
@@ -236,7 +218,7 @@ theorem addAllNodes_closed (md : List Feat) (spots : List Spot) (g : Graph) (seg
         · have := h s (by simp); rw [hr] at this; cases this
       simp only [Bool.false_eq_true, if_false, hi, Bool.or_false]
       rw [addNode_fresh _ _ _ hfresh, ih _ false hrest_ok hrest_id (hnd' a) huni' (by intro h; cases h)]
-      simp [spotAttrs, ha, hr, hsid, List.any_cons]
+      simp [spotAttrs, ha, hr, hsid, List.any_cons] <;> rfl
     | some r =>
       have hall : ∀ s' ∈ rest, s'.roi.isSome = true := by
         rcases huni with h | h
@@ -253,34 +235,9 @@ theorem addAllNodes_closed (md : List Feat) (spots : List Spot) (g : Graph) (seg
           simp [this]
       simp only [hconv, hi, Bool.or_true]
       rw [addNode_fresh _ _ _ hfresh, ih _ true hrest_ok hrest_id (hnd' _) (Or.inr hall) (fun _ => hall)]
-      simp [spotAttrs, ha, hr, hsid, List.any_cons]
+      simp [spotAttrs, ha, hr, hsid, List.any_cons] <;> rfl
 
 /-! ### `_build_tracks` -/
-
-def touches (e : Edge) (n : Nat) : Bool := e.s == n || e.t == n
-
-/-- the `TRACK_ID` entry a node carries after the (edge, track id) pairs `L` have been processed -/
-def stampOf (L : List (Edge × Val)) (n : Nat) : Attrs :=
-  match L.find? (fun x => touches x.1 n) with
-  | some x => [("TRACK_ID", x.2)]
-  | none => []
-
-def edgeAttrs (md : List Feat) (e : Edge) : Attrs :=
-  match convertAttributes md (edgeTexts e) with
-  | .ok a => a
-  | .exc _ => []
-
-def edgeEntry (md : List Feat) (x : Edge × Val) : (Nat × Nat) × Attrs := ((x.1.s, x.1.t), edgeAttrs md x.1)
-
-/-- the graph after `_add_all_nodes` (`base`) and the processing of `L` -/
-def stamped (md : List Feat) (base : List (Nat × Attrs)) (L : List (Edge × Val)) : Graph :=
-  { nodes := base.map (fun p => (p.1, p.2 ++ stampOf L p.1)), edges := L.map (edgeEntry md) }
-
-def addTagged (md : List Feat) : List (Edge × Val) → Graph → Outcome Graph
-  | [], g => .ok g
-  | x :: rest, g => match addEdge md x.1 g x.2 with
-    | .exc e => .exc e
-    | .ok g' => addTagged md rest g'
 
 theorem addNode_existing_nil (g : Graph) (n : Nat) (h : n ∈ g.nodes.map (·.1)) : g.addNode n [] = g := by
   unfold Graph.addNode
@@ -354,12 +311,6 @@ theorem stamp_closed (base : List (Nat × Attrs)) (edges : List ((Nat × Nat) ×
     by_cases hpn : p.1 = n
     · simp [hpn, h1]
     · simp [hpn]
-
-structure TaggedOk (md : List Feat) (base : List (Nat × Attrs)) (L : List (Edge × Val)) : Prop where
-  conv : ∀ x ∈ L, ∃ a, convertAttributes md (edgeTexts x.1) = .ok a
-  ends : ∀ x ∈ L, x.1.s ∈ base.map (·.1) ∧ x.1.t ∈ base.map (·.1)
-  distinct : (L.map (fun x => (x.1.s, x.1.t))).Nodup
-  consistent : ∀ x ∈ L, ∀ y ∈ L, ∀ n, touches x.1 n = true → touches y.1 n = true → x.2 = y.2
 
 theorem stampOf_cases (L : List (Edge × Val)) (n : Nat) :
     (stampOf L n = [] ∧ ∀ y ∈ L, touches y.1 n = false) ∨
